@@ -22,6 +22,7 @@ var registry = map[string]simkit.World{
 	"C13": fsmworld.C13{},
 	"C15": fsmworld.C15{},
 	"C16": fsmworld.C16{},
+	"C17": fsmworld.C17{},
 	"C18": resourceworld.World{},
 	"C19": fsmworld.C19{},
 	"C20": archiveworld.World{},
